@@ -311,20 +311,21 @@ Proof.
     intro H. injection H as <- <-.
     split; [rewrite app_length; simpl; lia|].
     unfold shape_mT in EbT. destruct (rev b) as [|p [|k bb]] eqn:Eb; try discriminate.
+    { injection EbT as <-. apply rev_is_nil in Eb. subst b.
+      unfold torch_matmul_shape. simpl. destruct (rev (rev aa ++ [n; m])) as [|? [|? ?]]; split; reflexivity. }
     injection EbT as <-. pose proof (rev_is_2 _ _ _ _ Eb) as ->.
     rewrite !torch_matmul_matrix_rule. rewrite (Nat.eqb_sym p m), (torch_broadcast_comm (rev bb) (rev aa)).
     destruct (m =? p); [|tauto].
     destruct (torch_broadcast (rev aa) (rev bb)); simpl; split; congruence.
 Qed.
 
-(* when the delegation itself raises (0-d operand: .mT refused) torch.matmul refuses as well *)
-Lemma rmatmul_transform_none : forall a b, 2 <= length a ->
-  transform E_rmatmul E_matmul a b = None -> torch_matmul_shape b a = None.
+(* the delegation itself never raises for an operator of rank >= 2 (x.mT is refused for 1-D tensors only, and those
+   take the other branch) *)
+Lemma rmatmul_transform_some : forall a b, 2 <= length a -> transform E_rmatmul E_matmul a b <> None.
 Proof.
   intros a b Ha. destruct (len2_rev a Ha) as (n & m & aa & Ea).
   pose proof (rev_is_2 _ _ _ _ Ea) as ->. unfold transform. rewrite shape_mT_app.
   destruct (length b =? 1) eqn:L1; [discriminate|].
-  unfold shape_mT. destruct (rev b) as [|p [|k bb]] eqn:Eb; try discriminate; intros _.
-  - apply rev_is_nil in Eb. subst. reflexivity.
-  - apply rev_is_1 in Eb. subst. discriminate.
+  unfold shape_mT. destruct (rev b) as [|p [|k bb]] eqn:Eb; try discriminate.
+  apply rev_is_1 in Eb. subst. discriminate.
 Qed.
